@@ -60,8 +60,8 @@ PROPS = {
         "level": "exploration",
         "runs": {"quick": 400, "thorough": 8000},
         "budget_s": {"quick": 400, "thorough": 3000},
-        "rule": "one evaluation = one (verifier, proof bytes, public inputs, version) tuple decided by the real verifier and by the independent reference verifier RM-verify (written from the protocol, fed only Verifier::to_bytes(), proof bytes, public inputs, version); verdicts must be equal (I-refine), honest proofs must be accepted under their own version, every altered message must be rejected. Corpus per run: 3 honest proofs x 3 versions, seeded channel faults (bit flips, truncation, splices of two valid proofs, field swaps, fresh valid elements, neutral elements, all-zero / all-identity proofs), every one of the 26 proof fields substituted once, altered public inputs, delivery to the verifier of a near-miss circuit. Thorough tier: on every 64th run all 8064 single-bit flips of one honest proof. Non-trivial = the message differs from the honest one or the version differs; distinct = hash of (scenario, message bytes, fault kind).",
-        "assumptions": ["RM-verify (sim/plonksim/src/rm_verify.rs) is the trusted statement of the verification equation and transcript", "the rejection branch for an evaluation challenge inside the domain is unreachable through the API (z is a hash output) and is reported as unreached"],
+        "rule": "one evaluation = one (verifier, proof bytes, public inputs, version) tuple decided by the real verifier and by the independent reference verifier RM-verify (written from the protocol, fed only Verifier::to_bytes(), proof bytes, public inputs, version); verdicts must be equal (I-refine), every challenge the real verifier squeezes must be the protocol transcript's (I-transcript, hook H7), the pairing product the real verifier compares with the identity must equal the protocol's e(left,[x]_2)/e(right,[1]_2) for the same message, on rejected messages too (I-equation, hook H9), honest proofs must be accepted under their own version, every altered message must be rejected. Corpus per run: 3 honest proofs x 3 versions, seeded channel faults (bit flips, truncation, splices of two valid proofs, field swaps, fresh valid elements, neutral elements, all-zero / all-identity proofs), every one of the 26 proof fields substituted once, altered public inputs, delivery to the verifier of a near-miss circuit. Thorough tier: on every 64th run all 8064 single-bit flips of one honest proof. Non-trivial = the message differs from the honest one or the version differs; distinct = hash of (scenario, message bytes, fault kind).",
+        "assumptions": ["RM-verify (sim/plonksim/src/rm_verify.rs) is the trusted statement of the verification equation and transcript", "the rejection branch for an evaluation challenge inside the domain is unreachable through the API (z is a hash output) and is reported as unreached", "I-equation assumes the verifier evaluates the protocol's equation unscaled (true of the pinned tree; either orientation of the product is accepted, and regrouping terms between the two pairings does not change it); a verifier that multiplied its check by a message-dependent non-zero factor would keep the accept set and would need the oracle adapted"],
     },
     "C04": {
         "level": "exploration",
